@@ -362,3 +362,9 @@ package keeper
 //@   flag pure=ValidatorUpdatesKey,GetMaxValidators
 //@   ensures[C06.svu.all] defined(res_MustMarshal_0) &&
 //@        unm["github.com/cosmos/cosmos-sdk/x/staking/types.ValidatorUpdates"](res_MustMarshal_0).Updates == valUpdates
+
+// C06 (at most the configured maximum of validators): the cap the validator set is cut at is the MaxValidators parameter.
+//@ func (Keeper).GetMaxValidators
+//@   flag noframe
+//@   flag pure=GetDogfoodParams
+//@   ensures[C06.gmv.field] defined(res_GetDogfoodParams_0) && r0 == res_GetDogfoodParams_0.MaxValidators
